@@ -86,3 +86,16 @@ def pairs(dim):
 
 def rng_for(seed, *salt):
     return random.Random(f"{seed}:{':'.join(map(str, salt))}")
+
+
+def stored_stratum(rng, names):
+    """Stored coordinates drawn directly (not derived from a Cartesian point): reaches states such as
+    tau < -|p| that no conversion from (x,y,z,t) produces."""
+    import math as m
+    out = {}
+    for n in names:
+        out[n] = {"x": lambda: rng.uniform(-3, 3), "y": lambda: rng.uniform(-3, 3), "rho": lambda: rng.uniform(0.05, 3),
+                  "phi": lambda: rng.uniform(-m.pi, m.pi), "z": lambda: rng.uniform(-3, 3),
+                  "theta": lambda: rng.uniform(0.05, m.pi - 0.05), "eta": lambda: rng.uniform(-3, 3),
+                  "t": lambda: rng.uniform(-5, 20), "tau": lambda: rng.choice([rng.uniform(-50, 50), rng.uniform(-2, 2), 0.0])}[n]()
+    return out
